@@ -42,18 +42,19 @@ var loopPolicies = map[string]loopPolicy{
 	"unserializers.(*CDX).licenseChoicesToLicenseList/*cyclonedx.Licenses":   {skips: map[string]string{"empty(Expression)&empty(ID)": "a choice with neither expression nor licence id is not representable"}},
 	"unserializers.(*CDX).licenseChoicesToLicenseString/*cyclonedx.Licenses": {skips: map[string]string{"empty(Expression)&empty(ID)": "a choice with neither expression nor licence id is not representable"}},
 	// --- node-list operations ---
-	"sbom.(*NodeList).Add/RootElements":         {skips: map[string]string{"present-in-index(roots)": "the identifier is already a root of the receiver"}},
-	"sbom.(*NodeList).Union/RootElements":       {skips: map[string]string{"present-in-index(roots)": "the identifier is already a root of the result"}},
-	"sbom.(*NodeList).Union/To":                 {skips: map[string]string{"predicate(sbom.(*Edge).PointsTo)": "the merged edge already points to the target"}},
-	"sbom.(*NodeList).Intersect/indexNodes()":   {skips: map[string]string{"absent-from-index(nodes)": "a node absent from the other operand does not survive: that is the intersection"}},
-	"sbom.(*NodeList).Intersect/To":             {skips: map[string]string{"present-in-index": "the merged edge already points to the target"}},
-	"sbom.(*NodeList).cleanEdges/Edges":         {skips: map[string]string{"absent-from-index(nodes)": "the edge's source is not a node of the list: dropping it is the normalisation"}},
-	"sbom.(*NodeList).cleanEdges/To":            {skips: map[string]string{"absent-from-index(nodes)": "the target is not a node of the list: dropping it is the normalisation"}},
-	"sbom.(*NodeList).cleanEdges/seenCache":     {skips: map[string]string{"not:len-test": "an edge left without targets is dropped"}},
-	"sbom.(*NodeList).RemoveNodes/Nodes":        {skips: map[string]string{"present-in-index": "the identifier is in the removal set"}},
-	"sbom.(*NodeList).RemoveNodes/RootElements": {skips: map[string]string{"present-in-index": "the identifier is in the removal set"}},
-	"sbom.(*NodeList).RelateNodeListAtID/Nodes": {skips: map[string]string{"present-in-index(nodes)": "a node with that identifier is already in the list (documented de-duplication)"}},
-	"sbom.(*Edge).AddDestinationById/[]string":  {skips: map[string]string{"dedupe": "a destination is added only once; the key is the identifier itself"}},
+	"sbom.(*NodeList).Add/RootElements":                 {skips: map[string]string{"present-in-index(roots)": "the identifier is already a root of the receiver"}},
+	"sbom.(*NodeList).Union/RootElements":               {skips: map[string]string{"present-in-index(roots)": "the identifier is already a root of the result"}},
+	"sbom.(*NodeList).Union/To":                         {skips: map[string]string{"predicate(sbom.(*Edge).PointsTo)": "the merged edge already points to the target"}},
+	"sbom.(*NodeList).Intersect/indexNodes()":           {skips: map[string]string{"absent-from-index(nodes)": "a node absent from the other operand does not survive: that is the intersection"}},
+	"sbom.(*NodeList).Intersect/To":                     {skips: map[string]string{"present-in-index": "the merged edge already points to the target"}},
+	"sbom.(*NodeList).cleanEdges/Edges":                 {skips: map[string]string{"absent-from-index(nodes)": "the edge's source is not a node of the list: dropping it is the normalisation"}},
+	"sbom.(*NodeList).cleanEdges/To":                    {skips: map[string]string{"absent-from-index(nodes)": "the target is not a node of the list: dropping it is the normalisation"}},
+	"sbom.(*NodeList).cleanEdges/seenCache":             {skips: map[string]string{"not:len-test": "an edge left without targets is dropped"}},
+	"sbom.(*NodeList).cleanEdges/map[string]*sbom.Edge": {skips: map[string]string{"not:len-test": "an edge left without targets is dropped"}},
+	"sbom.(*NodeList).RemoveNodes/Nodes":                {skips: map[string]string{"present-in-index": "the identifier is in the removal set"}},
+	"sbom.(*NodeList).RemoveNodes/RootElements":         {skips: map[string]string{"present-in-index": "the identifier is in the removal set"}},
+	"sbom.(*NodeList).RelateNodeListAtID/Nodes":         {skips: map[string]string{"present-in-index(nodes)": "a node with that identifier is already in the list (documented de-duplication)"}},
+	"sbom.(*Edge).AddDestinationById/[]string":          {skips: map[string]string{"dedupe": "a destination is added only once; the key is the identifier itself"}},
 	// --- lookups and matching (C16): a skip is the criterion itself ---
 	"sbom.(*NodeList).GetMatchingNode/Hashes": {skips: map[string]string{"absent-from-index": "no node of the list carries that algorithm:value pair"}},
 	"sbom.(*NodeList).GetMatchingNode/[]*sbom.Node": {skips: map[string]string{
